@@ -127,6 +127,7 @@ class Program:
             self.modules[name] = Module(name, rel, src, ispkg)
         for m in self.modules.values():
             self._plain_assignments(m)
+            self._hoist_walrus(m)
         self._undo_private_renames()
         for m in self.modules.values():
             for n in m.tree.body:
@@ -168,6 +169,8 @@ class Program:
         ('qubovert/utils/_dict_arithmetic.py', None): {'_generate_key_value_pairs': ['args', 'kwargs']},
         ('qubovert/utils/_solve_bruteforce.py', None): {'_solve_bruteforce': ['D', 'all_solutions', 'valid', 'spin', 'value']},
     }
+
+    PRIVATE_HELPER_CLASSES = ('PCBO', 'PCSO', 'PUBO', 'PUSO')
 
     def _undo_private_renames(self):
         self.renamed = {}
@@ -233,6 +236,68 @@ class Program:
                     out = [ast.copy_location(ast.Pass(), blk[0])]
                 setattr(node, field, out)
         if changed:
+            for n in ast.walk(m.tree):
+                for c in ast.iter_child_nodes(n):
+                    c._parent = n
+
+    @staticmethod
+    def _hoist_walrus(m):
+        """`x = f((n := E))` / `if (n := E) ...:` -> `n = E` placed before the statement, when the named expression is
+        evaluated unconditionally (not inside a lambda, a comprehension, the right side of and/or, or a branch of a
+        conditional expression).  `while` tests are left alone (re-evaluated per iteration)."""
+        changed = [False]
+
+        def unconditional(root, target):
+            # path from root to target must not pass a conditional evaluation context
+            def rec(n):
+                if n is target:
+                    return True
+                if isinstance(n, (ast.Lambda, ast.ListComp, ast.SetComp, ast.DictComp, ast.GeneratorExp)):
+                    return False
+                if isinstance(n, ast.BoolOp):
+                    return rec(n.values[0])
+                if isinstance(n, ast.IfExp):
+                    return rec(n.test)
+                if isinstance(n, ast.Compare):
+                    return rec(n.left) or (len(n.comparators) == 1 and rec(n.comparators[0]))
+                return any(rec(c) for c in ast.iter_child_nodes(n))
+            return rec(root)
+
+        def fix(stmts):
+            out = []
+            for st in stmts:
+                roots = []
+                if isinstance(st, (ast.Assign, ast.AugAssign, ast.Return, ast.Expr)) and getattr(st, 'value', None) is not None:
+                    roots = [st.value]
+                elif isinstance(st, ast.If):
+                    roots = [st.test]
+                for root in roots:
+                    named = [n for n in ast.walk(root) if isinstance(n, ast.NamedExpr)]
+                    for ne in named:
+                        if not unconditional(root, ne):
+                            continue
+                        out.append(ast.copy_location(ast.Assign(targets=[ast.Name(id=ne.target.id, ctx=ast.Store())], value=ne.value), st))
+
+                        class R(ast.NodeTransformer):
+                            def visit_NamedExpr(self, node):
+                                if node is ne:
+                                    return ast.copy_location(ast.Name(id=ne.target.id, ctx=ast.Load()), node)
+                                return self.generic_visit(node)
+                        if isinstance(st, ast.If):
+                            st.test = R().visit(st.test)
+                        else:
+                            st.value = R().visit(st.value)
+                        changed[0] = True
+                out.append(st)
+            return out
+        for node in ast.walk(m.tree):
+            for field in ('body', 'orelse', 'finalbody'):
+                blk = getattr(node, field, None)
+                if isinstance(blk, list) and blk and isinstance(blk[0], ast.stmt):
+                    if any(isinstance(x, ast.NamedExpr) for st in blk for x in ast.walk(st)):
+                        setattr(node, field, fix(blk))
+        if changed[0]:
+            ast.fix_missing_locations(m.tree)
             for n in ast.walk(m.tree):
                 for c in ast.iter_child_nodes(n):
                     c._parent = n
@@ -315,6 +380,28 @@ class Program:
                 if ref is None:
                     continue
                 a = fn.args
+                if a.kwonlyargs and not a.vararg and all(d is None for d in a.kw_defaults) and not a.defaults:
+                    # a keyword-only marker on a private helper: read it as the plain positional signature, and its
+                    # calls (below) in positional form
+                    a.args = a.args + a.kwonlyargs
+                    a.kwonlyargs, a.kw_defaults = [], []
+                names_now = [x.arg for x in a.posonlyargs + a.args]
+                if not a.vararg and not a.kwarg and not a.kwonlyargs:
+                    off = 1 if cname is not None else 0
+                    for n in ast.walk(m.tree):
+                        if isinstance(n, ast.Call) and n.keywords and all(k.arg for k in n.keywords):
+                            f = n.func
+                            callee = f.id if isinstance(f, ast.Name) else (f.attr if isinstance(f, ast.Attribute) else None)
+                            if callee != fn.name:
+                                continue
+                            unbound = isinstance(f, ast.Attribute) and isinstance(f.value, ast.Name) and f.value.id in self.PRIVATE_HELPER_CLASSES
+                            o = 0 if (cname is None or unbound) else off
+                            want = names_now[o:]
+                            kw = {k.arg: k.value for k in n.keywords}
+                            tail = want[len(n.args):len(n.args) + len(kw)]
+                            if len(n.args) + len(kw) <= len(want) and set(tail) == set(kw) and not any(isinstance(x, ast.Starred) for x in n.args):
+                                n.args = list(n.args) + [kw[t] for t in tail]
+                                n.keywords = []
                 cur = a.posonlyargs + a.args + ([a.vararg] if a.vararg else []) + a.kwonlyargs + ([a.kwarg] if a.kwarg else [])
                 if len(cur) != len(ref) or [x.arg for x in cur] == ref:
                     continue
